@@ -104,3 +104,23 @@ Theorem C02_json_agree_all :
        (jm_ok (json_slice inp) = true -> json_slice inp = json_reader inp)) /\
     prefix_of (jm_output (json_slice inp)) (jm_output (json_reader inp)).
 Proof. exact json_agree_all. Qed.
+
+(* The guard of the in-memory UTF-8 YAML path (chunker::has_document) against
+   the reader path's chunker, on the parser's event list: the in-memory path
+   returns without output exactly when the chunker has nothing to yield (the
+   parser reaches STREAM-END with no DOCUMENT-START and no error before it), and
+   whenever the chunker yields anything - a document or the parser's error - the
+   guard lets the stream through to the parser.  ([no_end_before_start]: no
+   DOCUMENT-END before the first DOCUMENT-START, which libyaml guarantees and
+   the correspondence check observes.) *)
+From XtModel Require Import ChunkerModel ChunkerProofs.
+
+Theorem C02_yaml_guard_no_document :
+  forall (data : bytes) (evs : list yev),
+    has_document evs = false -> no_end_before_start evs -> chunker data evs = [].
+Proof. exact no_document_no_chunks. Qed.
+
+Theorem C02_yaml_guard_lets_documents_through :
+  forall (data : bytes) (evs : list yev),
+    no_end_before_start evs -> chunker data evs <> [] -> has_document evs = true.
+Proof. exact chunks_imply_document. Qed.
